@@ -47,6 +47,26 @@ Definition builtin_registry : registry :=
     ("_eino_uintptr", TBase BUintptr); ("_eino_bool", TBase BBool); ("_eino_string", TBase BString);
     ("_eino_any", TAny) ]%string.
 
+(* the types the encoder looks up in the registry while it walks a value: the type of
+   every basic / struct node, the pointer-stripped element, key and value types of every
+   container, the pointer-stripped type of every nil pointer.  (The static type of an
+   interface position and whatever lies below a nil pointer are never looked up.) *)
+Definition stripped (t : ty) : ty := snd (strip_ptr t).
+Fixpoint looked_up (v : val) : list ty :=
+  match v with
+  | VBase b _ => [TBase b]
+  | VNamed n b _ => [TNamed n b]
+  | VStruct n fs => TStruct n :: flat_map (fun fv => looked_up (snd fv)) fs
+  | VNilPtr t => [stripped t]
+  | VPtr w => looked_up w
+  | VSlice t None => [stripped t]
+  | VSlice t (Some es) => stripped t :: flat_map looked_up es
+  | VMap k t None => [stripped k; stripped t]
+  | VMap k t (Some kvs) => stripped k :: stripped t :: flat_map (fun kv => looked_up (snd kv)) kvs
+  | VIface _ None => []
+  | VIface _ (Some w) => looked_up w
+  end.
+
 (* monadic map, written with the function outside the fixpoint so that it can be used
    for nested recursion with an arbitrary lambda *)
 Definition mapM {A B} (f : A -> res B) : list A -> res (list B) :=
@@ -152,6 +172,15 @@ Section Ser.
     | Some v => assign t v
     end.
 
+  (* decoding of a possibly absent (nil) sub-tree, and of the content of a position *)
+  Definition dec_opt (d : istruct -> res val) (oi : option istruct) : res (option val) :=
+    match oi with
+    | None => Ok None
+    | Some i' => do v <- d i'; Ok (Some v)
+    end.
+  Definition hole (d : istruct -> res val) (t : ty) (oi : option istruct) : res val :=
+    do o <- dec_opt d oi; place t o.
+
   Definition lookup_ty (k : string) : res ty :=
     match m_lookup reg k with Some t => Ok t | None => Err E_UNKNOWN_TYPE end.
 
@@ -198,11 +227,7 @@ Section Ser.
             match struct_fields env n with
             | None => Err E_NOSTRUCT
             | Some ds =>
-                do decoded <- mapM (fun fi =>
-                                match snd fi with
-                                | None => Ok (fst fi, None)
-                                | Some i' => do v <- dec i'; Ok (fst fi, Some v)
-                                end) fields;
+                do decoded <- mapM (fun fi => do o <- dec_opt dec (snd fi); Ok (fst fi, o)) fields;
                 if forallb (fun fo => has_name (fst fo) ds) decoded
                 then do fs <- build_fields ds decoded; Ok (wrap_ptr pn (VStruct n fs))
                 else Err E_FIELD
@@ -219,22 +244,13 @@ Section Ser.
         let vt := add_ptr vpn vt0 in
         do kvs <- mapM (fun e =>
                      do k <- dec_key kt (fst e);
-                     do o <- match snd e with
-                             | None => Ok None
-                             | Some i' => do v <- dec i'; Ok (Some v)
-                             end;
-                     do v <- place vt o;
+                     do v <- hole dec vt (snd e);
                      Ok (k, v)) entries;
         Ok (wrap_ptr (cpn pn) (VMap kt vt (Some kvs)))
     | ISlice pn epn ename elems =>
         do et0 <- lookup_ty ename;
         let et := add_ptr epn et0 in
-        do es <- mapM (fun e =>
-                    do o <- match e with
-                            | None => Ok None
-                            | Some i' => do v <- dec i'; Ok (Some v)
-                            end;
-                    place et o) elems;
+        do es <- mapM (hole dec et) elems;
         Ok (wrap_ptr (cpn pn) (VSlice et (match es with [] => None | _ => Some es end)))
     end.
 
